@@ -379,6 +379,22 @@ def c12(c):
     if leaks:
         c.violation("static-fact", "solve_ivp's solver dispatch mentions %s: output options may reach the steppers" % leaks,
                     {"file": "src/solve/solve_ivp.rs", "words": leaks}, False)
+    # static fact: the default output handler never writes through the solver's abscissa / state it receives by `&mut`
+    import re
+    hsrc = open(os.path.join(REPO, "src/solve/solout.rs")).read()
+    m = re.search(r"fn solout\s*\(", hsrc)
+    writes = []
+    if m:
+        body = hsrc[m.start():]
+        for k, line in enumerate(body.split("\n")):
+            code = line.split("//")[0]
+            if re.search(r"\*x\s*(=[^=]|\+=|-=|\*=)|\by\s*\[[^\]]*\]\s*(=[^=]|\+=|-=|\*=)|\by\.(copy_from_slice|fill|iter_mut|swap|clone_from_slice)\b", code):
+                writes.append({"line": hsrc[:m.start()].count("\n") + k + 1, "text": line.strip()[:120]})
+    c.cov["static_handler_writes"] = writes
+    if not m or writes:
+        c.violation("static-fact", "DefaultSolOut::solout writes through the solver's x / y (or was not found): %s" % (writes[:3],),
+                    {"finding_key": "c12-handler-writes", "file": "src/solve/solout.rs", "writes": writes,
+                     "theorem": "the handler model has no output for x and y (SolOutM.step returns the handler state and a flag only)"}, False)
     if c.build_harness() and c.build_driver():
         solve_stream(c)
         handler_stream(c)
@@ -580,7 +596,7 @@ def c15(c):
 
 
 # ---------------------------------------------------------------------------------------------- C13 (symmetries)
-C13_THEOREMS = ["c13_tolerance_scalar_vector", "c13_radau_tolAdjust", "c13_reflect_rk4", "c13_reflect_rk23", "c13_reflect_dopri5",
+C13_THEOREMS = ["c13_reflect_hinit", "c13_tolerance_scalar_vector", "c13_radau_tolAdjust", "c13_reflect_rk4", "c13_reflect_rk23", "c13_reflect_dopri5",
                 "c13_reflect_dop853", "c13_reflect_guards", "c13_reflect_stiff", "c13_reflect_norm", "c13_scale_dopri5", "c13_scale_rk23", "c13_copies_norm",
                 "rkArg_reflect", "rkNew_reflect", "rkArg_scale", "rkNew_scale", "sum_copies", "foldl_add_eq_sum"]
 
